@@ -178,7 +178,7 @@ def run_site(ctx, P, site, max_elems):
     n_expected = None
     inferring = True
     if site.startswith("match"):
-        n = 1 + ctx.choose([True] * max_elems)
+        n = 1 + ctx.choose([True] * min(max_elems, 2))      # three arms with every pattern shape exceed 60 k paths
         cases = []
         for i in range(n):
             under = ctx.choose([True, True]) == 0
@@ -262,7 +262,7 @@ def native_replay(site):
 
 def run_join_kernel(C, P):
     max_elems = 2 if C.tier == "quick" else 3
-    C.bounds["join_sites"] = {"sites": SITES, "elements_or_arms": f"0..{max_elems} (match 1..{max_elems})",
+    C.bounds["join_sites"] = {"sites": SITES, "elements_or_arms": f"0..{max_elems} (match 1..2 arms)",
                               "patterns": "`_` or a name, with or without payload; the name resolves to nothing / an enum variant / "
                                           "an enum constructor / another value", "block_exprs": "0..1"}
     C.assumptions += [
